@@ -38,6 +38,10 @@ TOUCHING = [
      [[(12, 7), (19, 7), (19, 8), (13, 8), (13, 9), (12, 9)],
       [(-1, -7), (0, -7), (0, -5), (2, -5), (2, -3), (3, -3), (3, -1), (5, -1), (5, 2), (6, 2), (6, 4), (-1, 4)],
       [(6, 19), (13, 19), (13, 8), (6, 8)]]),
+    # A xor B: the rectangle of A inside the rectangle of B is a hole whose corner (-45, 55) lies on an edge of the pentagon; the rounded
+    # intersection next to it leaves that corner just outside the contour
+    ([[(-30, 50), (-75, 65), (-100, 15), (-65, 25), (-50, 30)], [(-45, 55), (-25, 55), (-25, 65), (-45, 65)]],
+     [[(-50, 40), (-10, 40), (-10, 80), (-50, 80)]]),
     # the opposite case: real holes (XOR, OR not AND of slightly shifted copies) one of whose vertices lies a fraction of a grid unit
     # outside the contour that owns them, by the rounding of an intersection - these must stay holes
     ([[(7, 2), (1, 2), (0, 1), (-6, -3), (-9, 2), (-6, 9), (-1, 12), (4, 9)], [(-10, 2), (-18, 6), (-18, 12), (-11, 11), (-8, 9)]],
@@ -88,6 +92,16 @@ PROBE_LOBE = ([[(45, 55), (50, 55), (50, 20), (45, 20)], [(20, 20), (0, 50), (-1
                 (45, 15), (45, 30), (40, 30), (40, 15), (35, 15), (35, 30), (30, 30), (30, 10)]])
 
 
+# probe for the known finding C05/clipper-hole-reported-as-contour (first seen in the thorough tier at seed 33, case B50608):
+# (A or B) not (A and B) - the pocket (5..6, -1..0) between two teeth comes back from the clipping engine as an outer contour of its own,
+# inside the big contour, instead of as a hole like its two neighbours
+PROBE2_INDEX = -2
+PROBE_HOLE = ([[(4, 0), (4, 6), (5, 6), (5, 1), (6, 1), (6, 6), (7, 6), (7, 1), (8, 1), (8, 6), (9, 6), (9, 1), (10, 1), (10, 6), (11, 6), (11, 1), (12, 1), (12, 0)],
+               [(-3, 2), (8, -3), (-4, 5)]],
+              [[(4, -2), (4, 4), (5, 4), (5, -1), (6, -1), (6, 4), (7, 4), (7, -1), (8, -1), (8, 4), (9, 4), (9, -1), (10, -1), (10, 4), (11, 4), (11, -1), (12, -1), (12, -2)],
+               [(8, 3), (11, 6), (7, 9), (6, 10), (6, 18), (3, 13), (-3, 13), (3, 9), (-3, 4), (3, 2)]])
+
+
 def make_case(i):
     sd = vfw.seed() * 1000003 + 50000 + i
     rnd = random.Random(sd)
@@ -108,6 +122,8 @@ def make_case(i):
     touching = random.Random(sd + 5).random() < 0.04
     if touching:
         A, B = touching_pair(random.Random(sd + 6))
+    if i == PROBE2_INDEX:
+        A, B, s, K, style, touching = PROBE_HOLE[0], PROBE_HOLE[1], 2.0 ** 40, 2 ** 40, 2, True
     if i == PROBE_INDEX:
         A, B, s, K, style, touching = PROBE_LOBE[0], PROBE_LOBE[1], 2.0 ** 50, 2 ** 50, 2, True
     if style == 2:
@@ -116,7 +132,7 @@ def make_case(i):
         while maxc * s >= 2.0 ** 61 and s > 2.0 ** 40:
             s /= 16.0
         K = int(s)
-    c = Case('B%d' % i if i >= 0 else 'probe-lobe', timeout=60)
+    c = Case('B%d' % i if i >= 0 else ('probe-lobe' if i == PROBE_INDEX else 'probe-hole'), timeout=60)
     c.op('arr', 'new')
     for p in A:
         if style == 1:
@@ -231,8 +247,14 @@ def judge(chk, c, evs):
             if ca > 0 and cb > 0:
                 both = True
             if (cr > 0) != want:
-                chk.violation('C05/membership/' + op, '%s %s %s (scaling %g): point (%s,%s)/scaling is %s the result but should be %s (in first: %s, in second: %s)' % (
-                    xa, op, xb, s, px, py, 'inside' if cr else 'outside', 'inside' if want else 'outside', ca > 0, cb > 0), rp)
+                viol = ('C05/membership/' + op, '%s %s %s (scaling %g): point (%s,%s)/scaling is %s the result but should be %s (in first: %s, in second: %s)' % (
+                    xa, op, xb, s, px, py, 'inside' if cr else 'outside', 'inside' if want else 'outside', ca > 0, cb > 0))
+                if cr > 0 and not c.id.endswith('raw'):
+                    # covered although it should not be: second stage (work()) looks at the raw output of the clipping engine for this operation -
+                    # known finding C05/clipper-hole-reported-as-contour if two of its own outer contours overlap at this point
+                    c.meta['extra_pending'] = (viol, (xa, xb, op), (px, py), rp)
+                else:
+                    chk.violation(viol[0], viol[1], rp)
                 return
             if cr > 1:
                 chk.violation('C05/overlap/' + op, '%s %s %s: point (%s,%s)/scaling is covered by %d result polygons' % (xa, op, xb, px, py, cr), rp)
@@ -310,7 +332,14 @@ def work(rec, b, indices):
     for c in cases:
         rec.evaluations += 1
         judge(rec, c, ev.get(c.id, []))
-        if c.meta.get('area_pending'):
+        if c.meta.get('extra_pending'):
+            viol, (xa, xb, op), pt, rp = c.meta['extra_pending']
+            c2 = Case(c.id + 'raw', timeout=60)
+            c2.lines = list(c.lines)
+            c2.op('clipper_raw', xa, xb, op, fl(c.meta['s']))
+            c2.meta = c.meta
+            stage2.append(c2)
+        elif c.meta.get('area_pending'):
             # second stage: what does the clipping engine itself return for the operations whose result has a lobe?
             c2 = Case(c.id + 'raw', timeout=60)
             c2.lines = [ln for ln in c.lines if ln.startswith('arr')]
@@ -323,9 +352,28 @@ def work(rec, b, indices):
         return
     ev2 = script.run_cases(rec, b, stage2, shards=1)
     for c2 in stage2:
-        pending, lobed, rp = c2.meta['area_pending']
         evs = ev2.get(c2.id, [])
         raw = [e for e in evs if e['op'] == 'clipper_raw']
+        if c2.meta.get('extra_pending'):
+            viol, _opn, (px, py), rp = c2.meta['extra_pending']
+            outer = holes = 0
+            for e in raw[:1]:
+                for nd in e['nodes']:
+                    pts = [(nd['pts'][k], nd['pts'][k + 1]) for k in range(0, len(nd['pts']), 2)]
+                    wn = geom.winding(pts, px, py)
+                    if wn:
+                        if nd['hole']:
+                            holes += 1
+                        else:
+                            outer += 1
+            if raw and outer >= 2 and holes == 0:
+                rec.violation('C05/clipper-hole-reported-as-contour', '%s; in the raw output of the clipping engine for the same operands %d outer contours and no hole '
+                              'cover that point' % (viol[1], outer), rp)
+                rec.cov('holes_reported_as_contours_by_clipper')
+            else:
+                rec.violation(viol[0], viol[1], rp)
+            continue
+        pending, lobed, rp = c2.meta['area_pending']
         native = []
         for e in raw:
             for nd in e['nodes']:
@@ -347,8 +395,8 @@ def run(tier):
     b = vfw.build()
     n = N[tier]
     vfw.run_sharded(chk, b, n, work)
-    work(chk, b, [PROBE_INDEX])         # known finding: prints KNOWN-FINDING while it reproduces
-    chk.evaluations -= 1
+    work(chk, b, [PROBE_INDEX, PROBE2_INDEX])         # known findings: print KNOWN-FINDING while they reproduce
+    chk.evaluations -= 2
     c = make_case(0)
     chk.sample({'case': c.id, 'A': c.meta['A'], 'B': c.meta['B'], 'scaling': c.meta['s'], 'operations': c.meta['plan']})
     chk.rule = ('pairs of groups (1-3 simple polygons each: rectangles, L, triangles, stars, combs, staircases on a lattice of step 1/5/10, '
